@@ -115,6 +115,7 @@ E = [
  ("B49", "benign", [], D+"writer.go", "\tif w.closed {\n\t\treturn nil\n\t}\n\tif w.err != nil {\n\t\treturn w.err\n\t}", "\tswitch {\n\tcase w.closed:\n\t\treturn nil\n\tcase w.err != nil:\n\t\treturn w.err\n\t}"),
  ("B50", "benign", [], Z+"reader.go", "\t\tif haveDict {\n\t\t\tz.decompressor = flate.NewReaderDict(z.r, dict)\n\t\t} else {\n\t\t\tz.decompressor = flate.NewReader(z.r)\n\t\t}\n\t\tz.dictInflater = haveDict", "\t\tz.dictInflater = haveDict\n\t\tif !haveDict {\n\t\t\tz.decompressor = flate.NewReader(z.r)\n\t\t} else {\n\t\t\tz.decompressor = flate.NewReaderDict(z.r, dict)\n\t\t}"),
  ("B51", "benign", [], F+"reader.go", "\t\tif f.starved {", "\t\tif wait := f.starved; wait {"),
+ ("B52", "benign", [], D+"writer.go", "\tcase 1, 2:\n\t\tw.lc = NewDynCompressor(under, level, 32*1024)\n\tdefault:", "\tcase NoCompression:\n\t\tw.w, err = flate.NewWriter(under, level)\n\t\tif err != nil {\n\t\t\treturn nil, err\n\t\t}\n\tcase 1, 2:\n\t\tw.lc = NewDynCompressor(under, level, 32*1024)\n\tdefault:"),
 ]
 
 def sh(cmd, cwd=None):
